@@ -425,7 +425,8 @@ def fam_posthoc(tier: str, rng: random.Random) -> Iterator[dict]:
                 if mopts[target - 1] is None:
                     continue   # an inherited function object is the base's own function: decorating it IS decorating the base
                 for what, kind in (("require", "fn"), ("ensure", "fn"), ("require", "prop"), ("ensure", "static"),
-                                   ("require_partial", "fn"), ("ensure_partial", "static")):
+                                   ("require_partial", "fn"), ("ensure_partial", "static"), ("require_raw", "fn"),
+                                   ("ensure_raw", "fn")):
                     h = make_hist(shape, mopts, [[]] * n, kind=kind, tag="posthoc-" + shape)
                     role = "pre" if what.startswith("require") else "post"
                     h["con"].append({"role": role, "on": "CALL", "name": 0})
